@@ -308,6 +308,20 @@ pub fn run(a: &Args) -> Batch {
                 }
             }
         }
+        // ---------- rectangular shades ----------
+        for sh in &c.data.shadings {
+            if let (Some(g), Some(ms)) = (&sh.geometry, c.model.shades.iter().find(|x| x.name == sh.name)) {
+                if let Some(pts) = global_points(&ms.geometry) {
+                    bump("rectangular shades");
+                    cases.push(Case {
+                        term: format!("RectShade {} {} {} {} {} {} {}", dev_t, cs_term(g.azimuth as f64).0, cs_term(g.tilt as f64).0, v3f(g.x, g.y, g.z), coq::q(g.width), coq::q(g.height), lst(&pts.iter().map(v3).collect::<Vec<_>>())),
+                        post: format!("{}{}{}", cert_for(dev), cert_for(g.azimuth), cert_for(g.tilt)),
+                        json: json!({"kind": "rectangular shade", "project": pname, "shade": sh.name, "deviation": dev, "azimuth": g.azimuth, "tilt": g.tilt, "classes": []}),
+                        nontrivial: true,
+                    });
+                }
+            }
+        }
         // ---------- shades given by vertices ----------
         for sh in &c.data.shadings {
             if let (Some(vs), Some(ms)) = (&sh.vertices, c.model.shades.iter().find(|x| x.name == sh.name)) {
@@ -383,7 +397,7 @@ pub fn run(a: &Args) -> Batch {
         agree: "agree_C03".into(),
         cases,
         impl_findings: vec![],
-        rule: "projects = the shipped .ctehexml projects + variants with the building deviation set to an exact-trigonometry angle (multiples of 90, 3-4-5, 5-12-13, 7-24-25 triangles) or a random tenth of a degree, spaces offset within the building, spaces turned within the building; per converted project: every wall on an edge of its space outline (4 corners through WallGeom::to_global_coords_matrix + outward normal), every floor / ceiling taken from the outline, every wall / slab area, every window (offset, size, setback), every shade given by vertices; per shipped project the same project with its deviation increased by an exact angle: positions, azimuths, areas, U-values, K, n50, volumes. Angles that are not exact carry an interval certificate that the (cos, sin) pair is right to 1e-7. non-trivial = the building is turned or the space offset".into(),
+        rule: "projects = the shipped .ctehexml projects + variants with the building deviation set to an exact-trigonometry angle (multiples of 90, 3-4-5, 5-12-13, 7-24-25 triangles) or a random tenth of a degree, spaces offset within the building, spaces turned within the building; per converted project: every wall on an edge of its space outline (4 corners through WallGeom::to_global_coords_matrix + outward normal), every floor / ceiling taken from the outline, every wall / slab area, every window (offset, size, setback), every rectangular shade (4 corners) and every shade given by vertices; per shipped project the same project with its deviation increased by an exact angle: positions, azimuths, areas, U-values, K, n50, volumes. Angles that are not exact carry an interval certificate that the (cos, sin) pair is right to 1e-7. non-trivial = the building is turned or the space offset".into(),
         stats: json!({"projects": projects.len(), "variants": nvar, "not_converted": not_converted, "cases_by_kind": st}),
     }
 }
